@@ -117,6 +117,9 @@ fn desc_strings() -> Vec<String> {
         v.push((0..len).map(|i| char::from_u32(0xC0 + (i % 0x3F) as u32).unwrap()).collect::<String>());
         v.push((0..len).map(|i| if i % 2 == 0 { 'z' } else { '\u{ff}' }).collect::<String>());
         v.push((0..len).map(|i| if i % 3 == 0 { '\u{a4}' } else { '\u{80}' }).collect::<String>());
+        // Latin-1 bytes that happen to be valid multi-byte UTF-8
+        v.push((0..len).map(|i| ['\u{c3}', '\u{bc}'][i % 2]).collect::<String>());
+        v.push((0..len).map(|i| ['\u{e2}', '\u{82}', '\u{ac}', 'x'][i % 4]).collect::<String>());
     }
     v
 }
